@@ -214,8 +214,17 @@ def _unit_worker(args):
                                   time_s=round(time.time() - tb0, 2), distinct=out.get("distinct", out.get("cases", n)),
                                   sample=out.get("sample"))
         except Exception as e:
-            res["bounded"] = dict(name=uname, bound=unit.bounded_desc or "", cases=0, failures=[],
-                                  error="%s: %s" % (type(e).__name__, e), tb=traceback.format_exc()[-2000:])
+            frames = traceback.extract_tb(e.__traceback__)
+            in_repo = [fr for fr in frames if os.path.abspath(fr.filename).startswith(os.path.abspath(repo) + os.sep)]
+            if in_repo:
+                # the real code raised while the harness exercised it inside the contract's precondition: a failing case
+                res["bounded"] = dict(name="run-time contract on the real function: " + uname, bound=unit.bounded_desc or "", cases=1,
+                                      failures=[dict(clause="total: the real function must not raise on inputs satisfying the precondition",
+                                                     error="%s: %s" % (type(e).__name__, e),
+                                                     where="%s:%d" % (in_repo[-1].filename, in_repo[-1].lineno))], distinct=1)
+            else:
+                res["bounded"] = dict(name=uname, bound=unit.bounded_desc or "", cases=0, failures=[],
+                                      error="%s: %s" % (type(e).__name__, e), tb=traceback.format_exc()[-2000:])
     res["time_s"] = round(time.time() - t0, 3)
     return res
 
